@@ -466,7 +466,7 @@ def hashset_case(draw, tier):
 
 
 SUBCHECKS = [
-    SubCheck("history", body_history, kind="machine", machine=machine, steps=20, quick=5000, thorough=150000, shards_quick=14,
+    SubCheck("history", body_history, kind="machine", machine=machine, steps=20, quick=5000, thorough=450000, shards_quick=14,
              doc="rule-based state machine over HashTable vs dict model (invariant after every step)"),
     SubCheck("hashset", body_hashset, hashset_case, quick=3000, thorough=150000, shards_quick=2,
              doc="HashSet.contains, scalar and vector, on present keys, near misses and same-bucket absent keys"),
